@@ -3,6 +3,18 @@ import json, os, sys
 HERE = os.path.dirname(os.path.dirname(os.path.abspath(__file__)))
 
 CHECKS = {
+    "C15": ("model_checking", "3 C15",
+            "Explicit-state search where a state is a wrapper (path, kind, ACL flags, local-parent chain) and transitions are all navigation primitives of the group/dataset protocol (children, lookups by key / absolute / deep path, values, items, visititems, require_* of existing nodes, parent, file, query results, restrict with more flags, restrict(flag=False)); BFS to fixpoint from every node of a 3-level container x all 8 flag sets x drivers x both ways of restricting the root. In every reached state: flags never shrink, read_only => every protocol mutator on data/attributes/metadata raises with the raw dump unchanged, skel_only => content reads refuse while keys/in work, local_only => nothing above the local root, no raw object is ever handed out.",
+            "Protocol = util/types.py Protocol classes + meta/metador/restrict/acl + the dataset mutators the code lists; private attributes are not navigation; one fixture container per driver.",
+            "explicit-state BFS to fixpoint over wrapper states of the real implementation"),
+    "C18": ("exploration", "3 C18",
+            "All ordered pairs of snapshot trees of a small grammar (names {a,b}, depth<=2 with files/symlinks/empty dirs, plus a depth-3 family; thorough: more) are compared with DirDiff; an independent flatten-and-compare reference decides is_empty, the exact set of changed paths with status/prev/curr, get()/status() agreement, and the reported order is validated by simulating it on a dict filesystem (and on a real tmpfs directory for a deterministic slice).",
+            "Exhaustive for the stated grammar; no random larger trees (different family).",
+            "exhaustive input-pair enumeration against a reference model + order simulation"),
+    "C19": ("exploration", "3 C19",
+            "All trees of a grammar with file sizes around the hash block boundary and every symlink kind (inside plain/../absolute/dangling, outside file/dir/..) are built on tmpfs in two creation orders with different mtimes and hashed; results are grouped: equal hashsums <=> equal canonical content; every single edit of every tree must change the result; file entries must equal alg:hashlib digest (sha256, sha512); outside links must raise.",
+            "Exhaustive for the stated grammar; link chains excluded (property silent); tmpfs.",
+            "exhaustive input enumeration with group-by-result oracle"),
     "C09": ("model_checking", "3 C09",
             "Product system of three real MetadorContainers (h5py.File, IH5Record, IH5MFRecord) driven in lock-step by the same history (data, attributes, metadata attach/detach, copy with/without metadata, move, require_group); IH5-only patch boundaries and reopen points are deviations placed at every position up to a bound; every transition compares success/failure and the full user view (tree through all listing primitives, attributes, metadata JSON per node, query sets, used schemas). State key = triple of raw dumps.",
             "Purely differential - no reference model decides; documented IH5 subset (printable-ASCII keys, no links); bounded depth/alphabet.",
